@@ -290,7 +290,7 @@ def run(ctx, rep):
     ga = ctx.graph(key)
     Pa = ctx.product(key)
     creates = [n for n in Pa.calls(r"fs::OpenOptions::open$")
-               if contains(event_args(ga, n)[0], lambda x: call_is(x, r"OpenOptions::create_new$"))]
+               if creates_file(ga, n)]
     rep.floor("R05.2", "chunk file creations at rotation", len(creates), 1)
     tails = {n for n in Pa.calls(SEND_RX) if (c04.write_request_of_send(ga, n) or (0, 0, ""))[2] == "Write"}
 
@@ -319,10 +319,11 @@ def run(ctx, rep):
         g7 = ctx.graph(k7)
         P7 = ctx.product(k7)
         cr7 = {n for n in P7.calls(r"fs::OpenOptions::open$")
-               if contains(event_args(g7, n)[0], lambda x: call_is(x, r"OpenOptions::create_new$"))}
+               if creates_file(g7, n)}
         rep.floor("R05.7", "chunk file creations in Op(%s)" % opname_, len(cr7), 1)
+        cr7_ids = set(cr7)
         wr7 = {n for n in P7.calls(c04.WRITE_RX)
-               if contains(event_args(g7, n)[0], lambda x: call_is(x, r"fs::OpenOptions::open$") and contains(x, lambda y: call_is(y, r"OpenOptions::create_new$")))}
+               if contains(event_args(g7, n)[0], lambda x: isinstance(x, tuple) and len(x) > 3 and x[0] == "call" and x[3] in cr7_ids)}
 
         def step7(ms, pi, qi, learn, cr7=cr7, wr7=wr7):
             for o, v in norm_learn(learn):
@@ -376,7 +377,7 @@ def run(ctx, rep):
     else:
         rep.ok("R05.3", "set_len => sync_all Ok before open returns Ok", "", where=g.where(g.entry))
     # new open chunk id = end of the last recovered chunk
-    creators = {b["key"] for b, bi, t in ctx.all_calls(r"fs::OpenOptions::create_new$")}
+    creators = chunk_creators(ctx)
     found = 0
     for n, sub in g.callee_inst.items():
         if sub.key not in creators or n not in P.live:
